@@ -85,3 +85,13 @@ func (i *syntaxChildMultiIdentifier) setNext(next syntaxNode) {
 		i.unionQualifier.setNext(next)
 	}
 }
+
+func (i *syntaxChildMultiIdentifier) setAccessorMode(mode bool) {
+	i.syntaxBasicNode.setAccessorMode(mode)
+	for _, identifier := range i.identifiers {
+		identifier.setAccessorMode(mode)
+	}
+	if i.isAllWildcard {
+		i.unionQualifier.setAccessorMode(mode)
+	}
+}
